@@ -383,3 +383,8 @@ Proof.
   { apply N.eqb_neq. intros ->. apply H. right. left. reflexivity. }
   cbn [second_is_dot]. rewrite Hc. rewrite andb_false_r. reflexivity.
 Qed.
+
+Lemma flanks_recognised_and_stripped (a b : N) (body : str) :
+  has_flanks (a :: 46%N :: body ++ [46%N; b]) = true /\ strip_flanks (a :: 46%N :: body ++ [46%N; b]) = body.
+Proof. split; [apply has_flanks_spec | apply strip_flanks_spec]. Qed.
+
